@@ -4,6 +4,7 @@ package main
 import (
 	"context"
 	"fmt"
+	"math"
 	"strings"
 
 	"github.com/pinealctx/neptune/syncx/semap"
@@ -224,7 +225,8 @@ func progs(k1, k2 interface{}) []prog {
 	R := func(k interface{}) call { return call{key: k} }
 	W := func(k interface{}) call { return call{key: k, write: true} }
 	var ps []prog
-	for _, ratio := range []int{1, 2, 3} {
+	// ratios: small ones, and "unlimited readers" spelled as the largest ints (sums of tokens must not wrap)
+	for _, ratio := range []int{1, 2, 3, math.MaxInt, math.MaxInt/2 + 1} {
 		ps = append(ps,
 			prog{name: "excl/R|R|W", ratio: ratio, threads: [][]call{{R(k1)}, {R(k1)}, {W(k1)}}, pb: [2]int{4, 6}},
 			prog{name: "excl/W|W|R", ratio: ratio, threads: [][]call{{W(k1)}, {W(k1)}, {R(k1)}}, pb: [2]int{4, 6}},
@@ -354,7 +356,7 @@ func scenarios() []*mc.Scenario {
 
 func main() {
 	r := ev.Start("C01")
-	r.Rule("every interleaving (at each mutex / select / channel point, every select resolution, up to the stated preemption bound) of 2-4 callers doing AcquireRead/AcquireWrite - hold - Release, plus environment threads cancelling contexts, on the real SemMap / WideSemMap / WideXHashSemMap for rwRatio 1,2,3 and 1,2,3 shards; oracles: per-key holder counters at every entry, arrival-order (a call issued after another was observed queued must not be admitted while that one still waits), failed acquire never enters, deadlock = lost hand-off, entry residue at every scheduling decision and at the end, leaked-token probe; distinct = (status, who entered with which holder counts) signatures")
+	r.Rule("every interleaving (at each mutex / select / channel point, every select resolution, up to the stated preemption bound) of 2-4 callers doing AcquireRead/AcquireWrite - hold - Release, plus environment threads cancelling contexts, on the real SemMap / WideSemMap / WideXHashSemMap for rwRatio 1,2,3, MaxInt/2+1, MaxInt and 1,2,3 shards; oracles: per-key holder counters at every entry, arrival-order (a call issued after another was observed queued must not be admitted while that one still waits), failed acquire never enters, deadlock = lost hand-off, entry residue at every scheduling decision and at the end, leaked-token probe; distinct = (status, who entered with which holder counts) signatures")
 	r.Assume("vsync model of sync.Mutex, close-broadcast channels and select", "scenario bodies are data-race free")
 	mc.Main(r, scenarios())
 }
